@@ -106,7 +106,7 @@ def ensure_facts(verbose=True):
         open(os.path.join(fdir, 'OK'), 'w').write(th)
         # keep only the three most recent fact sets
         allsets = sorted(glob.glob(os.path.join(CACHE, 'facts', '*')), key=os.path.getmtime)
-        for old in allsets[:-3]:
+        for old in allsets[:-8]:
             shutil.rmtree(old, ignore_errors=True)
         dt = time.time() - t0
         if verbose:
@@ -200,6 +200,13 @@ class Crate:
             head = json.loads(rx.sub(rep, fh.readline()))
             for a in head['adts']:
                 self.adts[a['n']] = a
+                try:
+                    import analyses as _A
+                    if len(a.get('variants', [])) > 1:
+                        for v in a['variants']:
+                            _A.ENUM_DISCR[a['n'] + '::' + v['n']] = int(v['d'])
+                except Exception:
+                    pass
             self.impls = head['impls']
             for line in fh:
                 # local items print as `crate::…`: qualify with the crate name
@@ -362,19 +369,36 @@ def apply_inlining(crate):
         crate.fns.pop(h, None)
 
 
-def _fn_sig(f):
-    """[signature hash, number of blocks, sorted 16-bit hashes of the callee names] — enough to recognise a renamed function"""
+def _h16(name):
+    import zlib
+    return zlib.crc32(name.encode()) & 0xffff
+
+
+def _fn_sig(f, callers=()):
+    """[signature hash, number of blocks, hashes of the callee names, hashes of the caller names] — enough to recognise a
+    renamed / moved / re-signatured function"""
     import zlib
     sig = zlib.crc32('|'.join(f.locals[:f.argc + 1]).encode()) & 0xffffffff
-    cs = sorted({zlib.crc32(b['t'][2].encode()) & 0xffff for b in f.bbs if b['t'][0] == 'call' and not b['cleanup']})
-    return [sig, len(f.bbs), cs]
+    cs = sorted({_h16(b['t'][2]) for b in f.bbs if b['t'][0] == 'call' and not b['cleanup']})
+    return [sig, len(f.bbs), cs, sorted({_h16(c) for c in callers})]
+
+
+def _callers_of(fns):
+    out = {}
+    for n, f in fns.items():
+        owner = re.sub(r'(::\{closure#\d+\})+$', '', n)
+        for b in f.bbs:
+            if b['t'][0] == 'call' and not b['cleanup']:
+                out.setdefault(b['t'][2], set()).add(owner)
+    return out
 
 
 def write_inventory(fdir):
     inv = {}
     for c in LIB_CRATES:
         cr = Crate(c, os.path.join(fdir, c + '.jsonl'))
-        inv[c] = {n: _fn_sig(f) for n, f in sorted(cr.fns.items())}
+        callers = _callers_of(cr.fns)
+        inv[c] = {n: _fn_sig(f, callers.get(n, ())) for n, f in sorted(cr.fns.items())}
     json.dump(inv, open(INVENTORY, 'w'), separators=(',', ':'))
     return sum(len(v) for v in inv.values())
 
@@ -392,6 +416,10 @@ def rename_map(fdir):
         return _aliases[fdir]
     inventory()
     amap = {}
+
+    def jac(a, b):
+        a, b = set(a), set(b)
+        return (len(a & b) / float(len(a | b))) if (a | b) else None
     for c in LIB_CRATES:
         sigs = _inv_sigs.get(c)
         path = os.path.join(fdir, c + '.jsonl')
@@ -400,27 +428,92 @@ def rename_map(fdir):
         cr = Crate(c, path)
         cur = {n: f for n, f in cr.fns.items() if '{closure' not in n}
         gone = [n for n in sigs if '{closure' not in n and n not in cur and not n.startswith('<')]
-        new = {n: _fn_sig(f) for n, f in cur.items() if n not in sigs and not n.startswith('<')}
-        if not gone or not new:
+        newn = {n for n in cur if n not in sigs and not n.startswith('<')}
+        if not gone or not newn:
             continue
+        callers = _callers_of(cr.fns)
+
+        def callees_through(n, depth=2, seen=None):
+            """callee names of n, looking through functions that are new themselves (an extracted helper's callees are its caller's)"""
+            seen = seen if seen is not None else set()
+            out = set()
+            if n in seen or n not in cr.fns:
+                return out
+            seen.add(n)
+            for nn, f in cr.fns.items():
+                if nn == n or nn.startswith(n + '::{closure'):
+                    for b in f.bbs:
+                        if b['t'][0] == 'call' and not b['cleanup']:
+                            x = b['t'][2]
+                            if x in newn and depth > 0:
+                                out |= callees_through(x, depth - 1, seen)
+                            else:
+                                out.add(x)
+            return out
+
+        def callers_through(n, depth=2, seen=None):
+            seen = seen if seen is not None else set()
+            out = set()
+            if n in seen:
+                return out
+            seen.add(n)
+            for x in callers.get(n, ()):
+                if x in newn and depth > 0:
+                    out |= callers_through(x, depth - 1, seen)
+                else:
+                    out.add(x)
+            return out
+        # callee / caller names are compared through the aliases found so far (a renamed callee of a renamed caller)
+        cand = {}
+        for n in newn:
+            f = cur[n]
+            import zlib
+            cand[n] = (zlib.crc32('|'.join(f.locals[:f.argc + 1]).encode()) & 0xffffffff, len(f.bbs),
+                       {_h16(x) for x in callees_through(n)}, {_h16(x) for x in callers_through(n)})
         taken = set()
-        for m in sorted(gone):
-            ms = sigs[m]
-            best, best_sim, second = None, 0.0, 0.0
-            for n, ns in new.items():
-                if n in taken or ns[0] != ms[0]:
+        for m_ in sorted(gone):
+            ms = sigs[m_]
+            mcallers = ms[3] if len(ms) > 3 else []
+            best, best_sc, second, second_n = None, 0.0, 0.0, None
+            for n, ns in cand.items():
+                if n in taken:
                     continue
-                a, b = set(ms[2]), set(ns[2])
-                sim = (len(a & b) / float(len(a | b))) if (a | b) else (1.0 if abs(ms[1] - ns[1]) <= 2 else 0.0)
-                # same last path segment (moved) or same parent (renamed) is extra evidence
-                if n.rsplit('::', 1)[-1] == m.rsplit('::', 1)[-1] or n.rsplit('::', 1)[0] == m.rsplit('::', 1)[0]:
-                    sim += 0.15
-                if sim > best_sim:
-                    best, best_sim, second = n, sim, best_sim
-                elif sim > second:
-                    second = sim
-            if best is not None and best_sim >= 0.65 and best_sim - second >= 0.1:
-                amap[best] = m
+                ce, cr_ = jac(ms[2], ns[2]), jac(mcallers, ns[3])
+                parts = [x for x in (ce, cr_) if x is not None]
+                if not parts:
+                    continue
+                sc = sum(parts) / len(parts)
+                if ns[0] == ms[0]:
+                    sc += 0.15
+                if n.rsplit('::', 1)[-1] == m_.rsplit('::', 1)[-1] or n.rsplit('::', 1)[0] == m_.rsplit('::', 1)[0]:
+                    sc += 0.1
+                if sc > best_sc:
+                    best, best_sc, second, second_n = n, sc, best_sc, best
+                elif sc > second:
+                    second, second_n = sc, n
+            if best is not None and best_sc >= 0.6 and best_sc - second < 0.1 and second_n is not None:
+                # two candidates look alike because one is a new wrapper around the other (an extracted caller, or a dispatcher
+                # whose arms were split out): the renamed function is the one whose size, counted with the new helpers it
+                # calls, is closest to the old function's
+                def through_size(n0):
+                    seen_, work_, tot = set(), [n0], 0
+                    while work_:
+                        x = work_.pop()
+                        if x in seen_ or x not in cur:
+                            continue
+                        seen_.add(x)
+                        tot += len(cur[x].bbs)
+                        for bb in cur[x].bbs:
+                            if bb['t'][0] == 'call' and bb['t'][2] in newn:
+                                work_.append(bb['t'][2])
+                    return tot
+                d1, d2 = abs(through_size(best) - ms[1]), abs(through_size(second_n) - ms[1])
+                if d2 * 2 < d1:
+                    best, second = second_n, 0.0
+                elif d1 * 2 < d2:
+                    second = 0.0
+            if best is not None and best_sc >= 0.6 and best_sc - second >= 0.1:
+                amap[best] = m_
                 taken.add(best)
     _aliases[fdir] = amap
     return amap
